@@ -137,6 +137,32 @@ package core
 //@   ensures  regs:   forall id string :: id != txId ==> has(u.txStore.store, id) == old(has(u.txStore.store, id)) && (has(u.txStore.store, id) ==> u.txStore.store[id] == old(u.txStore.store[id]))
 //@   ensures  noop:   !old(has(u.txStore.store, txId)) ==> len(result) == 0 && forall l *core.List[model.File] :: l.elems == old(l.elems)
 //@   ensures  others: forall g *core.file :: old(g.gtx) != nil && old(g.gtx) != &u.allStore && (!old(has(u.txStore.store, txId)) || old(g.gtx) != old(u.txStore.store[txId])) ==> g.l.elems == old(g.l.elems)
+//@   hint before (*Node).V fok:     fileOk(f) && f.gtx == tx && !f.withoutSearch && tx != &u.allStore
+//@   hint before (*Node).DeleteLink tx0:   txInv(tx)
+//@   hint before (*Node).DeleteLink all0:  txInv(&u.allStore)
+//@   hint before (*Node).DeleteLink regs0: forall id string :: has(u.txStore.store, id) ==> regOk(u, id)
+//@   hint before (*Node).DeleteLink sep:   has(u.allStore.store, n.v.Key) && u.allStore.store[n.v.Key] != f && &f.l != n.link.owner && n.link.owner == &u.allStore.store[n.v.Key].l
+//@   hint before (*Node).DeleteLink txsep: forall k string :: has(tx.store, k) ==> &tx.store[k].l != n.link.owner
+//@   hint after (*Node).DeleteLink fok:    fileOk(f)
+//@   hint after (*Node).DeleteLink tx:     txInv(tx)
+//@   hint after (*Node).DeleteLink all:    txInv(&u.allStore)
+//@   hint after (*Node).DeleteLink regs:   forall id string :: has(u.txStore.store, id) ==> regOk(u, id)
+//@   hint after (*Node).DeleteLink links:  linkInv(u)
+//@   hint after (*Node).DeleteLink seqs:   seqInv()
+//@   hint before (*Pool).Release tx1:    txInv(tx)
+//@   hint before (*Pool).Release all1:   txInv(&u.allStore)
+//@   hint before (*Pool).Release regs1:  forall id string :: has(u.txStore.store, id) ==> regOk(u, id)
+//@   hint after (*Pool).Release fok:    fileOk(f)
+//@   hint after (*Pool).Release tx:     txInv(tx)
+//@   hint after (*Pool).Release all:    txInv(&u.allStore)
+//@   hint after (*Pool).Release regs:   forall id string :: has(u.txStore.store, id) ==> regOk(u, id)
+//@   hint after (*Pool).Release links:  linkInv(u)
+//@   hint after (*Pool).Release seqs:   seqInv()
+//@   hint after (*file).PopFront#2 tx:     txInv(tx)
+//@   hint after (*file).PopFront#2 all:    txInv(&u.allStore)
+//@   hint after (*file).PopFront#2 regs:   forall id string :: has(u.txStore.store, id) ==> regOk(u, id)
+//@   hint after (*file).PopFront#2 links:  linkInv(u)
+//@   hint after (*file).PopFront#2 seqs:   seqInv()
 //@ loop (*UseCase).DeleteTx#1
 //@   invariant inv:       ucInv(u) && tx != nil && toplevel(tx) && txInv(tx) && !tx.WithoutSearch && tx.store == $range
 //@   invariant detached:  !has(u.txStore.store, txId) && forall id string :: has(u.txStore.store, id) ==> u.txStore.store[id] != tx
